@@ -149,6 +149,17 @@ def safe_parse(json_str):
   except ValueError:
     return {}
 
+def _as_dict(value):
+  # For values parsed from cells written by clients, where an object is expected.
+  return value if isinstance(value, dict) else {}
+
+def _ms_to_seconds(value):
+  # For timestamps in milliseconds found in JSON written by clients; 0 if not a usable number.
+  try:
+    return int(value / 1000) if value is not None and not isinstance(value, bool) else 0
+  except (TypeError, ValueError, OverflowError):
+    return 0
+
 @migration(schema_version=1)
 def migration1(tdset):
   """
@@ -616,7 +627,7 @@ def migration15(tdset):
     # If the field belongs to the section and the field's colRef is in its filterSpec,
     # pull the filter setting from the section.
     filter_spec = specs.get(f.parentId)
-    if filter_spec and str(f.colRef) in filter_spec:
+    if isinstance(filter_spec, dict) and str(f.colRef) in filter_spec:
       doc_actions.append(actions.UpdateRecord('_grist_Views_section_field', f.id, {
         'filter': json.dumps(filter_spec[str(f.colRef)])
       }))
@@ -654,9 +665,11 @@ def migration16(tdset):
       parsed_options = json.loads(widget_options)
     except Exception:
       return None   # If invalid widgetOptions, skip this column.
+    if not isinstance(parsed_options, dict):
+      return None   # Same if widgetOptions is JSON, but not an object.
 
     visible_col_id = parsed_options.pop('visibleCol', None)
-    if not visible_col_id:
+    if not visible_col_id or not isinstance(visible_col_id, str):
       return None
 
     # Find visible_col_id as the column name in the appropriate table.
@@ -1135,7 +1148,7 @@ def migration34(tdset):
     # existing raw section filters to continue appearing in the filter bar, we'll pretend
     # here that raw sections have a filterBar value of True. Note that after this migration
     # it will be possible for raw sections to have unpinned filters.
-    s.id: bool(s.id in raw_section_ids or safe_parse(s.options).get('filterBar', False))
+    s.id: bool(s.id in raw_section_ids or _as_dict(safe_parse(s.options)).get('filterBar', False))
     for s in sections
   }
 
@@ -1367,8 +1380,8 @@ def migration45(tdset):
       time_updated = content.get('timeUpdated')
 
       # Convert milliseconds to seconds for DateTime columns
-      time_created_values.append(int(time_created / 1000) if time_created is not None else 0)
-      time_updated_values.append(int(time_updated / 1000) if time_updated is not None else 0)
+      time_created_values.append(_ms_to_seconds(time_created))
+      time_updated_values.append(_ms_to_seconds(time_updated))
       resolved_values.append(bool(content.get('resolved', False)))
 
       # Remove these fields from JSON content if they exist
